@@ -125,6 +125,8 @@ pub struct Arena {
     big: Vec<Region>,
     #[cfg(miri)]
     heap: Vec<Vec<u64>>,
+    #[cfg(miri)]
+    boxes: Vec<*mut [u8]>,
     pub placed: u64,
 }
 
@@ -141,6 +143,8 @@ impl Arena {
             big: Vec::new(),
             #[cfg(miri)]
             heap: Vec::new(),
+            #[cfg(miri)]
+            boxes: Vec::new(),
             placed: 0,
         }
     }
@@ -156,7 +160,19 @@ impl Arena {
             }
         }
         #[cfg(miri)]
-        self.heap.clear();
+        {
+            self.heap.clear();
+            self.free_boxes(0);
+        }
+    }
+
+    #[cfg(miri)]
+    fn free_boxes(&mut self, keep: usize) {
+        while self.boxes.len() > keep {
+            let p = self.boxes.pop().unwrap();
+            // SAFETY: created by Box::into_raw in place()
+            drop(unsafe { Box::from_raw(p) });
+        }
     }
 
     /// Stack discipline for short-lived placements (differential re-issues on throw-away values):
@@ -168,7 +184,7 @@ impl Arena {
         }
         #[cfg(miri)]
         {
-            (self.heap.len(), 0)
+            (self.heap.len(), self.boxes.len())
         }
     }
     pub fn release(&mut self, m: (usize, usize)) {
@@ -180,6 +196,7 @@ impl Arena {
         #[cfg(miri)]
         {
             self.heap.truncate(m.0);
+            self.free_boxes(m.1);
         }
     }
 
@@ -302,27 +319,26 @@ impl Arena {
                 }
             }
             _ => {
-                let b: Box<[u8]> = data.to_vec().into_boxed_slice();
-                let p = Box::leak(b);
-                // leaked on purpose under Miri (run with -Zmiri-ignore-leaks); tiny batches only.
-                &*p
+                let raw: *mut [u8] = Box::into_raw(data.to_vec().into_boxed_slice());
+                self.boxes.push(raw);
+                // SAFETY: freed only in reset()/release(), after every user is gone
+                unsafe { &*raw }
             }
         }
     }
 
     #[cfg(miri)]
     pub fn raw(&mut self, bytes: usize, _end_guard: bool, fill: u8) -> *mut u8 {
-        let mut v = vec![0u64; (bytes + 7) / 8];
+        // exact size (rounded to 8): Miri reports any access outside. Poison-filled requests stay
+        // truly uninitialised so that Miri itself flags a read of an unwritten slot.
+        let mut v: Vec<u64> = Vec::with_capacity((bytes + 7) / 8);
         let p = v.as_mut_ptr() as *mut u8;
-        // SAFETY: v holds at least `bytes` bytes
-        unsafe { ptr::write_bytes(p, fill, bytes) };
-        if bytes % 8 == 0 {
-            self.heap.push(v);
-            p
-        } else {
-            self.heap.push(v);
-            p
+        if fill != 0xA5 {
+            // SAFETY: capacity covers `bytes`
+            unsafe { ptr::write_bytes(p, fill, bytes) };
         }
+        self.heap.push(v);
+        p
     }
 }
 
